@@ -238,8 +238,49 @@ func (c17) Run(t *tape.Tape, cfg sim.Config) (res sim.Result) {
 	if err != nil {
 		panic(fmt.Sprintf("harness: instantiate shim: %v", err))
 	}
+	// a sidecar: ANOTHER guest instance in the same process with a writeable mount of a scratch directory
+	// next to the read-only tree.  Host descriptor numbers are process-wide: its calls (read a directory,
+	// then set that directory's times) are interleaved with the read-only guest's opens; nothing it does
+	// may land on the read-only tree.
+	var sidecar *w.Guest
+	if t.Chance(1, 3) {
+		scratch, err := os.MkdirTemp(scratchBase(), "c17w-")
+		if err != nil {
+			panic(err)
+		}
+		defer os.RemoveAll(scratch)
+		os.Mkdir(filepath.Join(scratch, "sub"), 0o755)
+		os.WriteFile(filepath.Join(scratch, "sub", "x"), []byte("x"), 0o644)
+		sidecar, err = RuntimeFor(cfg.Engine).NewGuest(wazero.NewModuleConfig().WithFSConfig(wazero.NewFSConfig().WithDirMount(scratch, "/")))
+		if err != nil {
+			panic(err)
+		}
+		defer sidecar.Mod.Close(context.Background())
+		res.Stat("probe.sidecar_instance_with_writeable_mount", 1)
+	}
+	sidecarDir := uint32(0)
 	nops := t.Range(5, 30)
 	for i := 0; i < nops && res.Violation == nil; i++ {
+		if sidecar != nil && t.Chance(1, 3) {
+			ctx := context.Background()
+			if sidecarDir == 0 {
+				sidecar.Write(0x200, []byte("sub"))
+				if e, err := sidecar.Call(ctx, "path_open", 3, 0, 0x200, 3, 2 /*O_DIRECTORY*/, 0x3fffffff, 0x3fffffff, 0, 0x300); err == nil && e == 0 {
+					sidecarDir = sidecar.U32(0x300)
+				}
+			}
+			fd := uint64(3)
+			if sidecarDir != 0 && t.Chance(1, 2) {
+				fd = uint64(sidecarDir)
+			}
+			if t.Chance(1, 2) {
+				sidecar.Call(ctx, "fd_readdir", fd, 0x1000, 512, 0, 0x300)
+				s.shape = append(s.shape, "sidecar:readdir")
+			} else {
+				sidecar.Call(ctx, "fd_filestat_set_times", fd, uint64(6000000000+i), uint64(6000000000+i), 5)
+				s.shape = append(s.shape, "sidecar:set_times")
+			}
+		}
 		what := s.step()
 		res.Steps++
 		if res.Violation != nil {
